@@ -68,6 +68,8 @@ type routerInterp struct {
 	served    []ssa.Instruction // where a router value is converted to http.Handler and stored/returned
 	root      *routerAbs
 	lateUse   []string
+	// guards of the call sites of the helpers being interpreted (outermost first)
+	ctxGuards []string
 }
 
 var verbMethods = map[string]string{
@@ -226,7 +228,22 @@ func (ri *routerInterp) interp(fn *ssa.Function, env map[ssa.Value]*routerAbs, d
 										}
 									}
 								}
+								// the helper's conditions read in the caller's terms: bind its parameters
+								// to the argument values, and carry the call site's own guards along
+								savedEnv, savedGuards := w.paramEnv, ri.ctxGuards
+								penv := map[*ssa.Parameter]ssa.Value{}
+								for k, v := range savedEnv {
+									penv[k] = v
+								}
+								for i, p := range f.Params {
+									if _, isRouter := sub[p]; i < len(c.Args) && !isRouter {
+										penv[p] = w.Resolve(c.Args[i])
+									}
+								}
+								ri.ctxGuards = append(append([]string(nil), savedGuards...), ri.guardsOf(in)...)
+								w.paramEnv = penv
 								ri.interp(f, sub, depth+1)
+								w.paramEnv, ri.ctxGuards = savedEnv, savedGuards
 							} else {
 								ri.problem(in, "a router value is passed to "+nameOr(name, "a dynamic call")+": its registrations cannot be followed")
 							}
@@ -283,7 +300,7 @@ func (ri *routerInterp) interp(fn *ssa.Function, env map[ssa.Value]*routerAbs, d
 					}
 					ri.interp(cl, sub, depth+1)
 				case method == "Mount" || method == "Handle" || method == "HandleFunc" || method == "Method" || method == "MethodFunc" || verbMethods[method] != "" || method == "NotFound" || method == "MethodNotAllowed":
-					ep := endpoint{Method: method, Pos: pos, In: in, Fn: fn, Guards: ri.guardsOf(in)}
+					ep := endpoint{Method: method, Pos: pos, In: in, Fn: fn, Guards: append(append([]string(nil), ri.ctxGuards...), ri.guardsOf(in)...)}
 					ai := 0
 					if method == "Method" || method == "MethodFunc" {
 						if k, ok := args[0].(*ssa.Const); ok && k.Value != nil {
